@@ -333,7 +333,7 @@ func workerScenario(log []sym.Access, label string) *hbScenario {
 }
 
 func c11Custom(ctx *Ctx) *Extra {
-	ex := &Extra{Bounds: map[string]interface{}{"threads": "2 and 3 concurrent callers per lazily initialised function (first caller, a caller that finds the Once taken, a later caller); 3 worker goroutines over a 2x4 image for 3 destination types", "events": "at most 6 logged accesses per instruction and goroutine"}}
+	ex := &Extra{Bounds: map[string]interface{}{"threads": "2 and 3 concurrent callers per lazily initialised function (first caller, a caller that finds the Once taken, a later caller); 3 worker goroutines over a 2x4 image for 3 destination types", "events": "at most 6 logged accesses per instruction, goroutine and calling context (three innermost call sites); builtin copy logged as loads and stores"}}
 	type logged struct {
 		label string
 		log   []sym.Access
